@@ -570,6 +570,9 @@ def run_subset(info, kind, req, kw):
     kw = dict(kw)
     cli = kw.pop("_cli_loader", False)
     options = subset.Options(**kw)
+    # the command line skips the glyph names only when they are not wanted in the output and no glyph
+    # is requested by name (subset.main: dontLoadGlyphNames = not options.glyph_names and not glyphs)
+    cli = bool(cli and not options.glyph_names and kind != "glyphs")
     font = subset.load_font(io.BytesIO(info.data), options, dontLoadGlyphNames=cli, lazy=True)
     s = subset.Subsetter(options)
     in_order = font.getGlyphOrder()
@@ -595,6 +598,7 @@ def run_subset(info, kind, req, kw):
     # as composite components / COLR layers are retained but are not layout-visible
     idx = {n: i for i, n in enumerate(in_order)}
     r.layout_gids = frozenset(idx[g] for g in s.glyphs_gsubed if g in idx)
+    r.cli = cli
     return r
 
 
@@ -635,6 +639,7 @@ def check_case(info, kind, req, optname, kw, rec, text_alpha, maxlen):
         r = run_subset(info, kind, req, kw)
     except subset.Subsetter.SubsettingError:
         raise
+    cli = r.cli  # whether the glyph names really were skipped
     okw = {k: v for k, v in kw.items() if not k.startswith("_")}
     new_order_raw = r.new_order
     # names -> original names
